@@ -38,6 +38,7 @@ type obj struct {
 	what     string
 	stored   bool // written during package initialisation
 	uninit   bool // global whose initialiser did not (fully) run
+	lazyG    *ssa.Global // set with uninit: the global, for initialisation on first read
 }
 
 type arrobj struct {
